@@ -255,6 +255,29 @@ def gen_federation_with_region_asset_markets(rng, maxtime=None, all_tobin=False,
     return spec
 
 
+def gen_federation_with_an_ownerless_firm(rng, maxtime=None):
+    """One federation: the first region has capitalists and a profitable firm, every other region a profitable firm that has no
+    owners in its own region (it retains its profits)."""
+    spec = None
+    for _ in range(200):
+        cand = gen_spec(rng, n_zones=1, maxtime=maxtime)
+        if cand['zones'][0]['kind'] == 'federation':
+            spec = cand
+            break
+    if spec is None:
+        return None
+    z = spec['zones'][0]
+    regs = [c for c in z['countries'] if c['role'] == 'region']
+    if len(regs) < 2:
+        return None
+    z['internal_imports'] = []
+    for i, c in enumerate(regs):
+        c['firm'] = {'form': 'fixed', 'margin': [0.1, 0.25, 0.125][i % 3]}
+        c['cap'] = {'ai': 0.6, 'af': 0.2} if i == 0 else None
+        c['second_market'] = None
+    return spec
+
+
 def force_two_markets_with_household_buyer(rng, spec):
     """The first country proper gets a second market in which both the government and the household buy (the household's
     purchase excluded from its income by the user); returns the codes that make the two market codes prefix-related
@@ -449,7 +472,7 @@ def _build(spec, model=None, holder=None, order_seed=None, codes=None, ckey_map=
           max_iter=3000, unused_ext=False, tol=None, order_perm=None, codes_after_first_country=False,
            query_zone=False, interleave_model=False, region_default_currency=False, run_via_steps=False,
            mutate_returned_lists=False, dup_country_attempts=False, overwrite_currency_member=False,
-           log_info_after_every_country=False, extra_rule=None):
+           log_info_after_every_country=False, extra_rule=None, fresh_currency_strings=False):
     """Build (and solve) the model described by spec with the REAL classes.
 
     order_seed: None = canonical declaration order; int = a random linear extension per country.
@@ -509,7 +532,9 @@ def _build(spec, model=None, holder=None, order_seed=None, codes=None, ckey_map=
                 # as the bundled REG2 model does: a Region inherits the currency of the country added just before it
                 country = cls(mod, ccode, 'Country ' + ccode)
             else:
-                country = cls(mod, ccode, 'Country ' + ccode, currency=z['cur'])
+                # fresh_currency_strings: the currency name reaches every constructor as a string object of its own, as names
+                # built at run time (renaming functions, parsed text) do
+                country = cls(mod, ccode, 'Country ' + ccode, currency=(''.join(list(z['cur'])) if fresh_currency_strings else z['cur']))
             b.countries[ck] = country
             b.zone_of[ck] = z['cur']
             if overwrite_currency_member:
